@@ -45,6 +45,16 @@ func runC20(e *core.Env) {
 			o.Near, o.NearSpread = &today, 3
 		}
 		d := gen.Document(r, o)
+		switch core.Hash64("c20-size", fmt.Sprint(e.Seed, i)) % 500 {
+		case 0: // more than a thousand records behind the generated ones
+			if x, ok := withAppended(d, manyRecordsText(r, r.PickInt(1001, 1300))); ok {
+				d = x
+			}
+		case 1: // a line beyond 64 KiB
+			if x, ok := withAppended(d, longLineText(r, r.PickInt(65536, 70000))); ok {
+				d = x
+			}
+		}
 		if i%4 == 3 {
 			text := d.Text
 			if m, ok := gen.Mutate(r, d); ok {
